@@ -102,7 +102,7 @@ Lemma tabulate_ext r c (f f' : nat -> nat -> R) :
   (forall i j, f i j = f' i j) -> tabulate r c f = tabulate r c f'.
 Proof. intros E. unfold tabulate. apply map_ext. intros i. apply map_ext. intros j. apply E. Qed.
 
-Theorem buffers_collection bias din dout w w' batches batches' :
+Theorem buffers_collection bias din dout w w' (batches batches' : list (list (list row))) :
   Permutation (retained_rows w batches) (retained_rows w' batches') ->
   XXT_of bias din w batches = XXT_of bias din w' batches' /\
   YXT_of bias din dout w batches = YXT_of bias din dout w' batches'.
@@ -111,7 +111,7 @@ Proof.
 Qed.
 
 (* special cases named in the property *)
-Corollary buffers_perm_sequences bias din dout w seqs seqs' :
+Corollary buffers_perm_sequences bias din dout w (seqs seqs' : list (list row)) :
   Permutation seqs seqs' ->
   XXT_of bias din w [seqs] = XXT_of bias din w [seqs'] /\ YXT_of bias din dout w [seqs] = YXT_of bias din dout w [seqs'].
 Proof.
